@@ -37,7 +37,7 @@ def expectedWrappers : List (String × String × List String) := [
   ("ToDotPath", "utils.ToDotPath", ["path"]),
   ("TreeifyError", "TreeifyErrorWithMapper", ["zodErr", "defaultIssueMapper(zodErr.formatter)"])]
 
-/-- the guard a thin entry point may carry for a nil `*ZodError` (pending/C19-nil-error.diff): the
+/-- the guard a thin entry point may carry for a nil `*ZodError` (since e8b2b50): the
     transcribed function is called on nil, which it reads as an error without issues
     (`reportsCfg … none`, Model/IssuesGo.lean) -/
 def expectedGuard (callee : String) : String :=
